@@ -4,8 +4,8 @@ EXTENDS AttrGrammar
 VARIABLES g, done
 Init == g \in Space /\ done = TRUE
 Next == UNCHANGED <<g, done>>
-Emit == PrintT(<<"ATTR", ToJson([gram |-> g, verdict |-> GrammarVerdict(g),
-                                  ranges |-> IF GrammarVerdict(g) = "must_reject" THEN <<>> ELSE GRanges(g),
-                                  access |-> IF GrammarVerdict(g) = "must_reject" THEN "none" ELSE GAccess(g),
-                                  stride |-> IF GrammarVerdict(g) = "must_reject" THEN <<>> ELSE GStride(g)])>>)
+Emit == PrintT(<<"ATTR", ToJson([gram |-> g, verdict |-> GrammarVerdict(g), meaning |-> MeaningDefined(g),
+                                  ranges |-> IF ~MeaningDefined(g) THEN <<>> ELSE GRanges(g),
+                                  access |-> IF ~MeaningDefined(g) THEN "none" ELSE GAccess(g),
+                                  stride |-> IF ~MeaningDefined(g) THEN <<>> ELSE GStride(g)])>>)
 =============================================================================
